@@ -143,13 +143,15 @@ def _consts_of(expr):
     return out
 
 
-def _child_solve(assertions, timeout_s, want_model, logic, wfd, attempt=0):
+def _child_solve(assertions, timeout_s, want_model, logic, wfd, attempt=0, eval_terms=None):
     import pickle
-    out = {"verdict": "inconclusive", "note": None, "model": None}
+    out = {"verdict": "inconclusive", "note": None, "model": None, "extra": None}
     try:
         if attempt:
             ctx2 = z3.Context()
             assertions = [a.translate(ctx2) for a in reversed(assertions)]
+            if eval_terms:
+                eval_terms = [t.translate(ctx2) for t in eval_terms]
             s = z3.Solver(ctx=ctx2) if logic is None else z3.SolverFor(logic, ctx=ctx2)
             s.set("random_seed", 7 * attempt)
         else:
@@ -172,6 +174,14 @@ def _child_solve(assertions, timeout_s, want_model, logic, wfd, attempt=0):
                     elif z3.is_true(v) or z3.is_false(v): vals[d.name()] = ("bool", z3.is_true(v))
                     else: vals[d.name()] = ("other", str(v)[:80])
                 out["model"] = vals
+                if eval_terms:
+                    ex = []
+                    for t in eval_terms:
+                        v = m.eval(t, True)
+                        if z3.is_int_value(v): ex.append(v.as_long())
+                        elif z3.is_true(v) or z3.is_false(v): ex.append(z3.is_true(v))
+                        else: ex.append(None)
+                    out["extra"] = ex
         elif r == z3.unsat:
             out["verdict"] = "unsat"
         else:
@@ -190,7 +200,7 @@ def _child_solve(assertions, timeout_s, want_model, logic, wfd, attempt=0):
         os._exit(0)
 
 
-def _forked_solve(assertions, timeout_s, want_model, logic, attempt=0):
+def _forked_solve(assertions, timeout_s, want_model, logic, attempt=0, eval_terms=None):
     """z3py in a forked child with a HARD wall-clock limit (z3's own timeout is cooperative and some nlsat steps ignore it)"""
     import pickle
     import select
@@ -199,7 +209,7 @@ def _forked_solve(assertions, timeout_s, want_model, logic, attempt=0):
     pid = os.fork()
     if pid == 0:
         os.close(rfd)
-        _child_solve(assertions, timeout_s, want_model, logic, wfd, attempt)
+        _child_solve(assertions, timeout_s, want_model, logic, wfd, attempt, eval_terms)
         os._exit(0)
     os.close(wfd)
     deadline = time.time() + timeout_s + 5
@@ -238,7 +248,7 @@ def _forked_solve(assertions, timeout_s, want_model, logic, attempt=0):
     return result
 
 
-def check(assertions, stats, timeout_s=60, want_model=False, xcheck=None, logic=None):
+def check(assertions, stats, timeout_s=60, want_model=False, xcheck=None, logic=None, eval_terms=None):
     """Decide the conjunction of `assertions`.
 
     returns (verdict, model) with verdict in 'sat' | 'unsat' | 'inconclusive'.
@@ -246,11 +256,12 @@ def check(assertions, stats, timeout_s=60, want_model=False, xcheck=None, logic=
     disagreement between the deciding solver (z3py) and the cross-checking binaries."""
     t0 = time.time()
     assertions = list(assertions)
-    res = _forked_solve(assertions, timeout_s, want_model, logic, 0)
+    eval_terms = list(eval_terms) if eval_terms else None
+    res = _forked_solve(assertions, timeout_s, want_model, logic, 0, eval_terms)
     if res["verdict"] == "inconclusive" and RETRY:
         # z3's nlsat is sensitive to term numbering; one retry in a fresh context with other seeds
         first = res["note"]
-        res = _forked_solve(assertions, timeout_s, want_model, logic, 1)
+        res = _forked_solve(assertions, timeout_s, want_model, logic, 1, eval_terms)
         if res["verdict"] != "inconclusive":
             stats.notes.append("first attempt gave no verdict (%s); retry in a fresh context decided" % first)
         elif first and not res["note"]:
@@ -259,6 +270,12 @@ def check(assertions, stats, timeout_s=60, want_model=False, xcheck=None, logic=
     if res["note"]:
         stats.notes.append(res["note"])
     model = ModelProxy(res["model"]) if (verdict == "sat" and want_model and res["model"] is not None) else None
+    if model is not None:
+        model.extra = {}
+        if eval_terms and res.get("extra"):
+            for t, v in zip(eval_terms, res["extra"]):
+                model.extra[t.get_id()] = v
+            model._keep = eval_terms
     stats.queries += 1
     stats.seconds += time.time() - t0
     do_x = XCHECK if xcheck is None else xcheck
@@ -336,7 +353,9 @@ def _crate_dir_for_repo():
     os.makedirs(os.path.join(crate, "src"), exist_ok=True)
     toml = open(os.path.join(src, "Cargo.toml")).read().replace('"/repo/crates/', '"%s/crates/' % REPO)
     open(os.path.join(crate, "Cargo.toml"), "w").write(toml)
-    shutil.copy(os.path.join(src, "src", "main.rs"), os.path.join(crate, "src", "main.rs"))
+    for f in os.listdir(os.path.join(src, "src")):
+        if f.endswith(".rs"):
+            shutil.copy(os.path.join(src, "src", f), os.path.join(crate, "src", f))
     lock = os.path.join(REPO, "Cargo.lock")
     shutil.copy(lock if os.path.exists(lock) else os.path.join(src, "Cargo.lock"), os.path.join(crate, "Cargo.lock"))
     return crate, os.path.join(base, "target")
@@ -361,6 +380,8 @@ def replay_binary(layouts=()):
     cmd = ["cargo", "build", "--offline", "--target-dir", target, "--manifest-path", os.path.join(crate, "Cargo.toml")]
     if feats:
         cmd += ["--features", feats]
+    if "stone6" in layouts:
+        cmd += ["--no-default-features"]        # the crate's default feature is stone5; the two are mutually exclusive
     t0 = time.time()
     try:
         r = subprocess.run(cmd, capture_output=True, text=True, env=env, timeout=1500)
@@ -396,6 +417,44 @@ def replay(requests, layouts=(), timeout_s=300):
     if not isinstance(out, list) or len(out) != len(requests):
         raise ReplayUnavailable("replay answer shape mismatch")
     return out
+
+
+class HashOracle(object):
+    """real Poseidon / Pedersen / Keccak / Blake2s through `replay_e2 --serve` (concrete runs of the felt-sx executor)"""
+    def __init__(self, layouts=()):
+        self.binary = replay_binary(layouts)
+        self.proc = subprocess.Popen([self.binary, "--serve"], stdin=subprocess.PIPE, stdout=subprocess.PIPE, text=True, bufsize=1)
+        self.calls = 0
+        self.cache = {}
+    def ask(self, req):
+        key = json.dumps(req, sort_keys=True)
+        if key in self.cache:
+            return self.cache[key]
+        self.proc.stdin.write(key + "\n")
+        self.proc.stdin.flush()
+        line = self.proc.stdout.readline()
+        if not line:
+            raise ReplayUnavailable("hash oracle process died")
+        ans = json.loads(line)
+        self.calls += 1
+        if "ok" not in ans:
+            raise ReplayUnavailable("hash oracle: %s" % ans)
+        self.cache[key] = ans["ok"]
+        return ans["ok"]
+    def hash2(self, family, a, b):
+        fn = {"poseidon2": "poseidon_hash", "pedersen": "pedersen_hash"}[family]
+        return int(self.ask({"fn": fn, "a": hx(a), "b": hx(b)}), 16)
+    def hash_many(self, vals):
+        return int(self.ask({"fn": "poseidon_hash_many", "values": [hx(v) for v in vals]}), 16)
+    def digest(self, family, raw):
+        fn = {"keccak": "keccak256", "blake2s": "blake2s256"}[family]
+        return bytes.fromhex(self.ask({"fn": fn, "bytes": raw.hex()}))
+    def close(self):
+        try:
+            self.proc.stdin.close()
+            self.proc.wait(timeout=5)
+        except Exception:
+            self.proc.kill()
 
 
 def ok_int(ans):
